@@ -135,7 +135,28 @@ class _Sink(logging.Handler):
 
 
 _SINK = _Sink()
-_AMBIENT = {'logging': False, 'default': False}
+_AMBIENT = {'logging': False, 'default': False, 'optimize': bool(sys.flags.optimize), 'warnings': False,
+            'warnings_default': False}
+_WARN_FILTER = ('error', None, Warning, __import__('re').compile(r'pynetdicom2(\.|$)'), 0)
+
+
+_RES_FILTER = ('ignore', None, ResourceWarning, None, 0)
+
+
+def set_warnings(on):
+    """Warnings ISSUED BY THE LIBRARY's own modules are turned into errors (as `-W error` or a test runner's
+    filterwarnings=error does); warnings of pydicom and everybody else are left alone."""
+    import warnings
+    for f in (_WARN_FILTER, _RES_FILTER):
+        while f in warnings.filters:
+            warnings.filters.remove(f)
+    if on:
+        warnings.filters.insert(0, _WARN_FILTER)
+        # (a file object of the harness collected while a library frame happens to run is not the library's warning)
+        warnings.filters.insert(0, _RES_FILTER)
+    if hasattr(warnings, '_filters_mutated'):
+        warnings._filters_mutated()
+    _AMBIENT['warnings'] = bool(on)
 
 
 def set_logging(on):
@@ -150,10 +171,23 @@ def set_logging(on):
     _AMBIENT['logging'] = bool(on)
 
 
+def quiet_warnings():
+    """What every check does first - silence pydicom's chatter - without losing the ambient 'library warnings are
+    errors' condition of this shard / case."""
+    import warnings
+    warnings.simplefilter('ignore')
+    set_warnings(_AMBIENT['warnings'] or _AMBIENT['warnings_default'])
+
+
 def ambient_case(case):
     """The replay case, marked when it was met under changed ambient conditions."""
-    if _AMBIENT['logging'] and isinstance(case, dict) and '_ambient_logging' not in case:
-        return dict(case, _ambient_logging=True)
+    if isinstance(case, dict):
+        if _AMBIENT['logging'] and '_ambient_logging' not in case:
+            case = dict(case, _ambient_logging=True)
+        if _AMBIENT['optimize'] and '_ambient_optimize' not in case:
+            case = dict(case, _ambient_optimize=True)
+        if _AMBIENT['warnings'] and '_ambient_warnings' not in case:
+            case = dict(case, _ambient_warnings=True)
     return case
 
 
@@ -239,6 +273,8 @@ def hyp_search(ctx, strategy, fn, max_examples, name='', max_buckets=6, shrink=T
     import hypothesis
     from hypothesis import given, settings, HealthCheck, Phase
 
+    if os.environ.get('VERIF_LIGHT') == '1':
+        max_examples = max(20, max_examples // 5)        # (second pass of the same check under `python -O`)
     ignored = set()
     for _round in range(max_buckets):
         last = {}
@@ -259,9 +295,10 @@ def hyp_search(ctx, strategy, fn, max_examples, name='', max_buckets=6, shrink=T
                                          HealthCheck.filter_too_much,
                                          HealthCheck.large_base_example],
                   print_blob=False)
-        @given(strategy, hypothesis.strategies.integers(0, 3))
+        @given(strategy, hypothesis.strategies.integers(0, 7))
         def test(value, ambient):
-            set_logging(ambient == 3 or _AMBIENT['default'])
+            set_logging(ambient in (3, 7) or _AMBIENT['default'])
+            set_warnings(ambient == 5 or _AMBIENT['warnings_default'])
             try:
                 fn(value)
             except Violation as v:
@@ -272,6 +309,7 @@ def hyp_search(ctx, strategy, fn, max_examples, name='', max_buckets=6, shrink=T
                 raise
             finally:
                 set_logging(_AMBIENT['default'])
+                set_warnings(_AMBIENT['warnings_default'])
 
         try:
             test()
@@ -326,8 +364,47 @@ def write_replay(prop, key, what, case):
     return path
 
 
+def optimize_pass(ctx):
+    """The same check once more, lighter, in a child interpreter started with -O (asserts stripped, __debug__ False): no
+    property depends on that flag.  The child's failures and counts are merged into ctx; a harness error of the child
+    is a harness error."""
+    import subprocess
+    import tempfile
+    if sys.flags.optimize or os.environ.get('VERIF_OPT_PASS', '1') == '0':
+        return
+    fd_, path = tempfile.mkstemp(prefix='vf_opt_', suffix='.json', dir=OUT_DIR if os.path.isdir(OUT_DIR) else None)
+    os.close(fd_)
+    env = dict(os.environ, VERIF_LIGHT='1', VERIF_OPT_PASS='0', VERIF_CHILD_JSON=path, VERIF_SEED=str(ctx.seed))
+    try:
+        res = subprocess.run([sys.executable, '-O', '-m', 'vf.run', ctx.prop, '--tier', 'quick'], cwd=VERIF_DIR, env=env,
+                             capture_output=True, text=True)
+        if res.returncode != 0 or os.path.getsize(path) == 0:
+            raise HarnessError('pass under python -O failed (rc %d): %s' % (res.returncode, (res.stdout + res.stderr)[-600:]))
+        with open(path) as fh:
+            child = from_jsonable(json.load(fh))
+    finally:
+        try:
+            os.unlink(path)
+        except OSError:
+            pass
+    for key, ent in child['failures'].items():
+        if key not in ctx.failures:
+            ctx.failures[key] = {'what': ent['what'] + ' [under python -O]', 'case': ent['case'], 'count': ent['count']}
+    ctx.evaluations += child['evaluations']
+    ctx.inconclusive += child.get('inconclusive', 0)
+    ctx.hist['ambient: second pass under python -O (evaluations)'] = child['evaluations']
+    ctx.hist['ambient: second pass under python -O (distinct non-trivial)'] = child['nontrivial']
+
+
 def finish(ctx, wall_extra=None):
     """Classify failures, print protocol lines, write evidence; return the exit code."""
+    child_json = os.environ.get('VERIF_CHILD_JSON')
+    if child_json:
+        with open(child_json, 'w') as fh:
+            json.dump(to_jsonable({'failures': ctx.failures, 'evaluations': ctx.evaluations,
+                                   'nontrivial': len(ctx.nontrivial), 'inconclusive': ctx.inconclusive}), fh)
+        return 0
+    optimize_pass(ctx)
     known = [k for k in load_known() if k.get('property') == ctx.prop]
     open_keys = {k['key']: k for k in known if k.get('status') == 'open'}
     violations = []
@@ -422,6 +499,8 @@ def _shard_entry(args):
     sub = Ctx(prop, tier, seed, level)
     _AMBIENT['default'] = (seed % 4 == 3)         # every fourth shard as a whole
     set_logging(_AMBIENT['default'])
+    _AMBIENT['warnings_default'] = (seed % 4 == 1)
+    set_warnings(_AMBIENT['warnings_default'])
     try:
         func = getattr(importlib.import_module(modname), funcname)
         func(sub, job)
